@@ -45,18 +45,35 @@ def _tlc(res, name, module, cfg, **kw):
 
 
 # ---------------------------------------------------------------- fft family
+def contain(v, ct):
+    """the argument value v (int or tuple of ints) in the container form ct of the call record:
+    py = int / tuple, list, range (consecutive values only), nd64 / nd32 = NumPy int64 / int32 scalar or array"""
+    if isinstance(v, tuple):
+        if ct == "list":
+            return list(v)
+        if ct == "range" and all(b == a + 1 for a, b in zip(v, v[1:])):
+            return range(v[0], v[-1] + 1)
+        if ct in ("nd64", "nd32"):
+            return np.array(v, dtype=np.int64 if ct == "nd64" else np.int32)
+        return v
+    if ct in ("nd64", "nd32"):
+        return (np.int64 if ct == "nd64" else np.int32)(v)
+    return v
+
+
 def kwargs_of(c, norm=None):
     kw = {}
+    ct = c.get("ct", "py")
     if c["name"] in NAMES1:
         if c["n"] != NONE:
-            kw["n"] = c["n"]
+            kw["n"] = contain(c["n"], ct)
         if c["axis"] != NONE:
-            kw["axis"] = c["axis"]
+            kw["axis"] = contain(c["axis"], ct)
     else:
         if c["s"]:
-            kw["s"] = tuple(c["s"])
+            kw["s"] = contain(tuple(c["s"]), ct)
         if c["axes"]:
-            kw["axes"] = tuple(c["axes"])
+            kw["axes"] = contain(tuple(c["axes"]), ct)
     nm = c["norm"] if norm is None else norm
     if nm != "none":
         kw["norm"] = nm
@@ -76,8 +93,12 @@ def transformed_axes(c, ndim):
 
 
 def make_input(c, x, dtype):
+    """-> (array of dtype holding the case's small integers cast to it, do they survive the cast exactly?)"""
     a = np.array([complex(r, i) for r, i in x]).reshape(c["sh"])
-    return (a.real if np.dtype(dtype).kind != "c" else a).astype(dtype)
+    dt = np.dtype(dtype)
+    with np.errstate(all="ignore"):
+        b = (a if dt.kind == "c" else a.real.astype(np.int64) if dt.kind in "iub" else a.real).astype(dt)
+    return b, bool(np.array_equal(b.astype(np.clongdouble), a.astype(np.clongdouble)))
 
 
 def rel_err(got, ref):
@@ -109,10 +130,9 @@ def run_fft_case(c, x, dtype, expected=None, norm=None, dask=True, form=0):
     from common import pb
     name = c["name"]
     kw = kwargs_of(c, norm)
-    a = make_input(c, x, dtype)
-    single = a.dtype in (np.float32, np.complex64)
-    tol_spec = 1e-5 if single else 1e-12
-    tol_same = 1e-6 if single else 1e-14
+    a, exact_input = make_input(c, x, dtype)
+    if not exact_input:
+        expected = None            # the specification's result is for the integers themselves
     form = {True: 2, False: 0}.get(form, form) if isinstance(form, bool) else int(form)
     args, kw2 = call_form(name, kw, form)
     what = "pb.fft.%s(%s%r array%s%s)" % (name, dtype, tuple(c["sh"]), "".join(", %r" % (v,) for v in args),
@@ -123,7 +143,10 @@ def run_fft_case(c, x, dtype, expected=None, norm=None, dask=True, form=0):
         try:
             ref = getattr(scipy.fft, name)(a.copy(), *args, **kw2)
         except Exception as e:  # noqa
-            return [("machinery:reference-raised", "%s: reference raised %r" % (what, e))], False
+            return [("unjudged:reference-raised", "%s: reference raised %r" % (what, e))], False
+        single = ref.dtype in (np.float32, np.complex64)      # precision the reference works in
+        tol_spec = 1e-5 if single else 1e-12
+        tol_same = 1e-6 if single else 1e-14
         try:
             got = getattr(pb.fft, name)(a.copy(), *args, **kw2)
         except Exception as e:  # noqa
@@ -140,7 +163,9 @@ def run_fft_case(c, x, dtype, expected=None, norm=None, dask=True, form=0):
             nref = getattr(np.fft, name)(a.copy(), *args, **kw2)
         except Exception:  # noqa
             nref = None
-        if nref is not None and got.shape == nref.shape and rel_err(got, nref) > tol_spec:
+        # numpy.fft scales half-precision input in half precision (scipy.fft works in single): its own accuracy bounds the comparison
+        tol_np = 4e-3 if (a.dtype.kind == "f" and a.dtype.itemsize == 2) else tol_spec
+        if nref is not None and got.shape == nref.shape and rel_err(got, nref) > tol_np:
             bad.append(("numpy:values-vs-numpy", "%s differs from numpy.fft.%s by %.3g" % (what, name, rel_err(got, nref))))
         if nref is not None and got.shape != nref.shape:
             bad.append(("numpy:shape-vs-numpy", "%s has shape %r, numpy.fft.%s %r" % (what, got.shape, name, nref.shape)))
@@ -153,11 +178,7 @@ def run_fft_case(c, x, dtype, expected=None, norm=None, dask=True, form=0):
         if not dask:
             return bad, False
         # ---- Dask: chunked off the transformed axes, lazy
-        nb = len(bad)
         bad2, judged = _dask_part(c, a, name, what, args, kw2, ref, tol_same)
-        if name.endswith("n") and "s" in kw and "axes" not in kw and len(kw["s"]) < a.ndim:
-            bad2 = [("dask:s-shorter-than-ndim-" + ("without-axes" if form < 2 else "axes-none-positional"), d + "  [with axes=None dask.array.fft applies s to the FIRST len(s) axes, "
-                     "scipy.fft / numpy.fft to the LAST len(s) axes]") for k, d in bad2[:1]]
         return bad + bad2, judged
 
 
@@ -204,46 +225,47 @@ def expected_array(rec):
 
 
 def replay_fft(chk, recs, rnd):
+    """every generated call record (case + input dtype dt + container form ct + positional prefix cf) on both backends"""
     thorough = chk.tier == "thorough"
-    n = ndask = 0
-    by_name = {}
-    keyed = set()
+    n = ndask = unjudged = 0
+    by_name, by_dt, by_form, dt_name = {}, {}, {}, set()
     for i, rec in enumerate(sorted(recs, key=lambda r: (r["c"]["name"], r["c"]["sh"], r["c"]["kind"], str(r["c"])))):
         c, x = rec["c"], rec["x"]
         exp = expected_array(rec)
-        dts = ["complex128", "complex64"] if c["kind"] == "complex" else ["float64", "float32", "int32"]
-        # call forms: every case is called with two complementary forms (0 and 2, or 1 and 3 leading parameters
-        # positional) on both backends, so that every parameter is passed positionally and by keyword
-        f = i % 4
-        runs = [(dts[0], exp, None, True, f), (dts[0], exp, None, True, (f + 2) % 4),
-                (dts[1], exp, None, thorough or i % 3 == 0, (f + 1) % 4)]
-        if len(dts) > 2 and (thorough or i % 4 == 0):
-            runs.append((dts[2], exp, None, False, (f + 3) % 4))
-        # reference-only variants: every normalisation for this argument combination
-        if c["norm"] == "none":
-            for nm in NORMS if (thorough or i % 2 == 0) else [NORMS[i % 3]]:
-                runs.append((dts[i % 2], None, nm, thorough or i % 4 == 1, (f + 1 + NORMS.index(nm)) % 4))
-        for dt, e, nm, dk, pos in runs:
-            bad, judged = run_fft_case(c, x, dt, e, nm, dk, pos)
+        runs = [(c["dt"], exp, None, True, c["cf"])]
+        # reference-only variants: the other normalisations for this call
+        if c["norm"] == "none" and (thorough or i % 5 == 0):
+            for nm in NORMS if thorough else [NORMS[(i // 5) % 3]]:
+                runs.append((c["dt"], None, nm, True, (c["cf"] + 1 + NORMS.index(nm)) % 4))
+        for dt, e, nm, dk, cf in runs:
+            bad, judged = run_fft_case(c, x, dt, e, nm, dk, cf)
+            if bad and bad[0][0].startswith("unjudged"):
+                unjudged += 1
+                chk.notes.setdefault("reference_refused_examples", [])
+                if len(chk.notes["reference_refused_examples"]) < 5:
+                    chk.notes["reference_refused_examples"].append(bad[0][1][:200])
+                continue
             n += 1
             ndask += judged
             by_name[c["name"]] = by_name.get(c["name"], 0) + 1
+            by_dt[dt] = by_dt.get(dt, 0) + 1
+            by_form["%s/%d" % (c["ct"], cf)] = by_form.get("%s/%d" % (c["ct"], cf), 0) + 1
+            dt_name.add((dt, c["name"]))
             for key, desc in bad:
-                if key.startswith("machinery"):
-                    chk.machinery_errors.append(desc)
-                    continue
-                k2 = "fft:%s:%s" % (key, c["name"])
-                chk.violation(k2, desc, {"kind": "fft", "c": c, "x": x, "dtype": dt, "norm": nm, "dask": dk, "form": pos,
-                                         "out": rec["out"] if e is not None else None})
-                keyed.add(k2)
-        if i % 700 == 5:
-            chk.sample({"case": {k: v for k, v in c.items()}, "kwargs": {k: (list(v) if isinstance(v, tuple) else v) for k, v in kwargs_of(c).items()},
-                        "expected_first": [str(z) for z in exp.ravel()[:3]]})
+                chk.violation("fft:%s:%s" % (key, c["name"]), desc,
+                              {"kind": "fft", "c": c, "x": x, "dtype": dt, "norm": nm, "dask": dk, "form": cf,
+                               "out": rec["out"] if e is not None else None})
+        if i % 1500 == 5:
+            chk.sample({"call": {k: v for k, v in c.items()}, "expected_first": [str(z) for z in exp.ravel()[:3]]})
     chk.validated += n
-    chk.notes["fft_cases_from_tlc"] = len(recs)
+    chk.notes["fft_calls_from_tlc"] = len(recs)
     chk.notes["fft_calls_judged"] = n
     chk.notes["fft_dask_calls_judged"] = ndask
+    chk.notes["fft_calls_reference_refused"] = unjudged
     chk.notes["fft_calls_by_name"] = by_name
+    chk.notes["fft_calls_by_input_dtype"] = by_dt
+    chk.notes["fft_calls_by_container_and_positional_prefix"] = by_form
+    chk.notes["fft_dtype_x_name_pairs"] = len(dt_name)
 
 
 def check_names(chk):
@@ -529,7 +551,7 @@ def run(chk):
     thorough = chk.tier == "thorough"
     os.makedirs(SCR, exist_ok=True)
     res = {}
-    jobs = [("fft", "Gen_Fft", "Gen_Fft_mid.cfg" if thorough else "Gen_Fft_quick.cfg", dict(workers=14 if thorough else 9, timeout=3000, heap="3g")),
+    jobs = [("fft", "Gen_Fft", "Gen_Fft_mid.cfg" if thorough else "Gen_Fft_quick.cfg", dict(workers=14 if thorough else 12, timeout=3000, heap="3g")),
             ("stft", "Gen_Stft", "Gen_Stft_full.cfg" if thorough else "Gen_Stft_quick.cfg", dict(workers=4, timeout=1500, heap="2g")),
             ("defs", "FftDefs", "FftDefs.cfg", dict(workers=1, timeout=900, heap="2g")),
             ("neg-defs", "FftDefs", "Neg_FftDefs.cfg", dict(workers=1, timeout=900, heap="2g"))]
